@@ -53,3 +53,44 @@ for _n in range(0, N_MAX + 1):
                 ("C16.exactly_one_entry_removed", "len(self.t) == %d" % (_n - 1)),
             ],
             defined_props=["C16"], raises_props=["C16"])
+
+
+def _replay(model, contract):
+    """replay on a REAL TimeSeries with the model's times and values"""
+    import atomica.utils as au
+
+    def val(name):
+        v = model.eval(z3.Real(name), model_completion=True)
+        return float(v.numerator_as_long()) / float(v.denominator_as_long())
+
+    n = contract["n"]
+    ts = [val("t%d" % i) for i in range(n)]
+    vs = [val("v%d" % i) for i in range(n)]
+    t = val("t")
+    pre = dict(t=ts, vals=vs, op=contract["op"], at=t)
+    if any(a >= b for a, b in zip(ts, ts[1:])):
+        return dict(verdict="requires-fail", detail="model times not strictly increasing", prestate=pre)
+    s = au.TimeSeries(t=list(ts), vals=list(vs), assumption=1.0)
+    try:
+        if contract["op"] == "insert":
+            v = val("v")
+            pre["value"] = v
+            s.insert(t, v)
+            want = dict(zip(ts, vs))
+            want[t] = v
+        else:
+            if t not in ts:
+                return dict(verdict="requires-fail", detail="time to remove not present", prestate=pre)
+            s.remove(t)
+            want = {a: b for a, b in zip(ts, vs) if a != t}
+    except Exception as e:
+        return dict(verdict="violates", detail="real code raised %s: %s" % (type(e).__name__, e), prestate=pre)
+    got = dict(zip(s.t, s.vals))
+    ok = got == want and list(s.t) == sorted(s.t) and len(s.t) == len(s.vals) and len(set(s.t)) == len(s.t)
+    return dict(verdict="holds" if ok else "violates", detail="series after the operation: t=%r vals=%r; expected entries %r" % (list(s.t), list(s.vals), want), prestate=pre)
+
+
+for _k, _c in CONTRACTS.items():
+    _c["replay_hook"] = _replay
+    _c["n"] = int(_k.split("#n")[1])
+    _c["op"] = "insert" if ".insert#" in _k else "remove"
